@@ -24,7 +24,7 @@ prop(
     "C11", "exploration",
     "Enumerated: every string of length <= L over the 65-symbol alphabet a-z A-Z 0-9 # - space (L=3 quick, "
     "L=4 thorough = 18.1M strings), all 128 numbers in both directions, plus rapid-sampled mutations "
-    "(replace/insert/delete/other letter/other octave) of valid names up to length 8. Oracle: an independent "
+    "(replace/insert/delete/other letter/other octave/blanks/one or two further names behind a separator) of valid names. Oracle: an independent "
     "note grammar (letter A-G any case, optional # except after E/B, octave -2..8, value <= 127). "
     "Non-trivial = the string has the outer shape letter #? -? digit (the only strings that can be mis-accepted) "
     "or is a number round trip; distinct by the string itself. 'X-0' is not a note name. Configuration path: every sampled string, and every "
@@ -57,7 +57,8 @@ prop(
     "C01", "fault_enumeration",
     "rapid-generated device descriptions (1-3 mappings, 2-8 collision-prone note keys on 1-2 sub-handlers, all action keys incl. panic, "
     "0-2 key-emulating axes, 4 collision modes) x alternating press/release histories of 1-60 events (state-changing taps while keys are held, "
-    "bursts, key repeats, MIDI-in noise, unmapped keys, axis moves); the event stream is closed after the last event, so the random length is "
+    "bursts, key repeats, MIDI-in noise of every legal message shape, events of other types - EV_SYN codes 1-3 incl. SYN_DROPPED, EV_MSC scan codes, "
+    "EV_REL, EV_LED, EV_SW with key-like codes and values -, unmapped keys, axis moves); the event stream is closed after the last event, so the random length is "
     "the injected disconnect point; TestC01Cuts additionally runs EVERY prefix of generated histories. Oracle: a receiver "
     "(Note On adds, Note Off / CC123 removes) must have nothing sounding whenever no key is down and all axes are at rest, and after "
     "ProcessEvents returns; nothing may be emitted afterwards. Worlds include a second sub-handler reporting a note key with the same code "
@@ -126,7 +127,9 @@ prop(
 prop(
     "C13", "exploration",
     "Base histories without panic (C03-like worlds that always have a panic key) and a panic press inserted at a generated index (thorough: "
-    "TestC13All inserts at EVERY legal index), released immediately or a few events later; never while a complete up/down pair is held. "
+    "TestC13All inserts at EVERY index), released immediately or a few events later, also while a complete up/down pair is held; in a quarter of the "
+    "cases the panic is triggered by pushing a hat bound to the panic action instead of the key; the worlds have exit sequences (often containing "
+    "the panic key) that never complete. "
     "Oracle: (1) the panic step emits only CC123 and Note Offs on the current channel, CC123 present, all 128 pitches covered, state unchanged; "
     "(2) metamorphic: every other step emits exactly what the same history without the panic emits (releases of keys held across the panic may "
     "emit nothing instead), states equal; (3) quiescence/disconnect leave nothing sounding. Non-trivial = panic with >= 1 key held and a later press.",
@@ -182,8 +185,12 @@ prop(
     "travel, random fraction; the side flips with p=0.5 per event; learning toggled with p=0.1. Oracle on the receiver's controller values: after "
     "EVERY event at most one controller of each axis is non-zero; after every transmitting event the non-zero one is on the side of the exact "
     "shaped position (both zero at rest); only the axis' controllers are addressed; while learning is held a deflection not beyond half travel "
-    "transmits nothing. Non-trivial = a direct jump between opposite sides, or a transmission while learning.",
-    [dict(test="TestC07", shards=16, checks_quick=10000, checks_thorough=60000)],
+    "transmits nothing (exactly half travel is not beyond half travel). TestC07Burst: the MIDI output queue has a capacity of 1-32 (mostly the "
+    "application's 8) and a reader that takes 50-400 us per message, and the second half of >= 24 positions arrives back to back: after the burst "
+    "has drained, at most one controller of each axis is non-zero and a clearly deflected stick shows on its own side. "
+    "Non-trivial = a direct jump between opposite sides, a transmission while learning, or a burst of >= 8 positions.",
+    [dict(test="TestC07", shards=16, checks_quick=10000, checks_thorough=60000),
+     dict(test="TestC07Burst", shards=16, checks_quick=150, checks_thorough=3000, shrinktime="15s")],
     level_text="Generated-history search against receiver-side invariants.",
     level_note=_ANALOG_NOTE,
     technique="stateful property-based testing (rapid) with receiver-side invariants + exact side oracle",
@@ -227,7 +234,8 @@ prop(
     "C09", "exploration",
     "Inputs to config.ParseData (and, in TestC09Hidi, to LoadHIDIConfig of cmd/hidi): arbitrary bytes up to 2 KiB; documents up to 64 KiB "
     "built from the schema vocabulary (all struct tags, key/axis names) with values of every TOML type (ints in all bases, floats incl. inf/nan, "
-    "dates, strings, arrays, inline tables), dotted keys and [x]/[[x]] confusion; the factory files and rapid-generated valid configurations "
+    "dates, strings, arrays, inline tables), dotted keys and [x]/[[x]] confusion; 1/8 of all inputs re-encoded or behind a magic prefix (byte order "
+    "marks, UTF-16 with and without its last bytes, gzip/zip/ELF/NUL prefixes, CR line ends, trailing NUL); the factory files and rapid-generated valid configurations "
     "with 1-3 mutations (delete/duplicate/swap line, retype value, rename key, truncate at a byte, drop an inline field, [x]<->[[x]], insert, "
     "corrupt a byte); thorough tier adds native coverage-guided fuzzing (go test -fuzz) seeded with factory files and known hostile inputs. "
     "Oracle: the call returns a value or an error; a panic (recovered, with its site) or no return within 10 s is a violation. "
@@ -281,7 +289,8 @@ prop(
     "joystick} x {matching, non-matching identifier}); device type from {Keyboard, Joystick, Mouse, Unknown, 7}; 0-6 noise entries: file that "
     "fails TOML, valid TOML that fails validation, unknown field, empty, binary, a decoder-crashing document, a valid higher-precedence-looking "
     "config without .toml suffix / with .toml.bak etc., nested directories, a directory named x.toml, a dangling symlink, .TOML upper case "
-    "(only with unusable content); valid configs of other devices; one of the four directories missing in 1/5 of the cases. Oracle: no panic; "
+    "(only with unusable content); candidate files and nested directories under odd names (blanks, Cyrillic, Latin-1 bytes that are not UTF-8, a "
+    "leading dot, 170 characters); valid configs of other devices; one of the four directories missing in 1/5 of the cases. Oracle: no panic; "
     "all directories present -> no error and FindConfig returns the file the precedence list names (checked by tag, type and file name) or an "
     "error when none applies; unsupported types -> UnsupportedDeviceType; missing directory -> an error or that directory treated as empty. "
     "In 2/5 of the cases every candidate is saved again in place (same length; the served one possibly invalid now) and everything is loaded "
@@ -300,7 +309,7 @@ prop(
 prop(
     "C19", "exploration",
     "A temporary tree with the four directories and pre-created files (a.toml, device.toml, notes.txt, a.toml.bak, a.toml~, mytoml, x.tom, toml, "
-    "atoml, README); 1-8 operations: a single in-place write (open without truncation, one write(2)), a burst of 1-20 writes across "
+    "atoml, README, hidden / blank-containing / multi-dot / Cyrillic / Latin-1 names); 1-8 operations: a single in-place write (open without truncation, one write(2)), a burst of 1-20 writes across "
     "directories/files, a series of 64-4096 (+-2) modifications alternating between two .toml files while the consumer is busy, a flood beyond "
     "the kernel's event queue, or a pause; the consumer reads promptly or 1-200 ms late; then cancel while idle, with a notification pending unread, or "
     "in the middle of a burst. Count-based oracle that is sound under any timing: total notifications <= in-place writes to *.toml files "
@@ -320,7 +329,8 @@ prop(
     "1-10 synthetic handlers (input.DeviceInfo without an openable node): capability lists drawn from the 13 signature sets of the capability "
     "tables (both standard-keyboard signatures, NKRO, mouse, system, multimedia, joystick-like with ABS and/or FF, others), optionally with one "
     "type added or dropped, or as random subsets of the 12 EV_* types; list order permuted, duplicates injected; physical location from a pool "
-    "of 1-4 strings incl. \"\"; identifiers equal within a location in 80%. Each case is normalised in the identity order, reversed and 5 random "
+    "of 1-4 strings incl. \"\"; identifiers equal within a location in 80%, bus from the kernel's bus types (PCI, USB, Bluetooth, virtual, i8042, ...) "
+    "and the corners, version / uniq / sysfs varying (none of them is the location). Each case is normalised in the identity order, reversed and 5 random "
     "orders (TestC20AllOrders: ALL orders of up to 6 handlers). Oracle: every handler in exactly one device; devices == distinct locations and "
     "every handler sits in the device of its own location; device type = Joystick if any handler is joystick-like, else Keyboard if any is a "
     "standard keyboard, else neither; the order-free summary (location, type, handler multiset, identifier when the group agrees) is the same "
@@ -343,7 +353,9 @@ prop(
     "ProcessMidiEvents -> fake port), channel capacities 0-8 each, 1-4 concurrent emitters of 0-300 tagged messages, 0-400 numbered input "
     "messages, GOMAXPROCS in {1,2,4,16}, and a generated script of up to 14 harness-owned actions over 4 consumers: attach (plain reader, or a "
     "real device.Device whose ProcessEvents is ended before it is detached - the manager's pattern), stop reading, resume, detach (after "
-    "0-8 ms of traffic piling up), let n more messages start; 1/4 of the cases feed the fan-out directly. Oracles: output port = per-emitter "
+    "0-8 ms of traffic piling up), let n more messages start; 1/4 of the cases feed the fan-out directly. Between the numbered input messages "
+    "travel messages of every other legal shape (real-time bytes incl. system reset, a SysEx whole and in pieces, program change, pressure, "
+    "controller, bend, song position / select, tune request), which must arrive piece by piece between the same neighbours. Oracles: output port = per-emitter "
     "exact order, exactly once, byte-for-byte; every consumer's sequence numbers strictly increasing and contiguous up to the last message "
     "owed to it, containing every message whose send began after its SpawnOutput returned up to the one before the newest message any consumer "
     "had seen when DespawnOutput was called (the whole stream for consumers kept to the end); DespawnOutput always returns - the negative "
@@ -366,7 +378,8 @@ prop(
     "C18", "fault_enumeration",
     "updateHIDIConfiguration() of package main (in-package test injected with -overlay; ALSA driver swapped for a stub) run in a fresh working "
     "directory per case. State of hidi-config: absent (first start), or present with every built-in factory file independently intact / absent / "
-    "truncated at a generated byte / modified (shorter, same length, longer), factory directories absent, 0-7 arbitrary files below user/ "
+    "truncated at a generated byte (a third of the cuts on or next to a multiple of 512 / 1024 / 4096 / 8192, or at the very ends) / modified "
+    "(shorter, same length, longer, padded to whole blocks), factory directories absent, 0-7 arbitrary files below user/ "
     "(incl. names that mirror factory names, nested dirs), hidi.toml and the blacklist present with arbitrary bytes or absent, extra files. "
     "Crash states are built by construction from the deterministic walk order: an interrupted FIRST run (walk entries before k exist, entry k "
     "cut at byte b, nothing after) and an interrupted UPDATE run over a generated state (factory files before k restored, file k truncated to b "
@@ -402,10 +415,12 @@ _LED_NOTE = ("Trusted: the fake OpenRGB server in orgb.go (the protocol subset o
 prop(
     "C17", "exploration",
     "The REAL LED loop (handleOpenrgb) of one device per case against a fake OpenRGB server. Layout: the LEDs of ~80% of the keys in use plus 0-8 "
-    "other named keys and 0-3 unnamed extras in random order (generic controller, or the HyperX name with/without its 18 strip LEDs); description "
+    "other named keys, 0-3 unnamed extras and (1/3 of the cases) 1-5 LEDs that real controllers list and HIDI has no key for (ISO variants, media "
+    "keys, light bars, near-miss spellings) in random order (generic controller, or the HyperX name with/without its 18 strip LEDs); description "
     "with 1-3 mappings (never named Control), 2-10 note keys, 70% of the octave/semitone/channel/mapping/panic/multinote keys, seven "
     "pairwise distant colours, non-zero default transposition/channel in some cases. 3-24 steps: note key press/release, action taps "
-    "(|12*octave+semitone| <= 127), MIDI-in Note On / Note Off / Note On with velocity 0 on the current or another channel (80% aimed at a "
+    "(any transposition, a quarter of the worlds start far out), MIDI-in Note On / Note Off / Note On with velocity 0 on the current or another channel (80% aimed at a "
+    "mapped key's current pitch; 1/6 of them preceded by some other legal message: controller, bend, real-time byte, SysEx ...), "
     "mapped key's current pitch), panic, and observations. Oracle at each observation: reference frame function over the LEDs the property "
     "speaks about - note-key LEDs: unavailable colour when out of range, else pitch-class colour (+-2 per component), or one of the applicable "
     "highlight colours (active / external on current channel / that channel's colour) when the pitch sounds; octave, semitone, mapping and "
@@ -423,7 +438,8 @@ prop(
 prop(
     "C16", "exploration",
     "1-4 real devices processed concurrently in a binary built with -race: each with the real LED loop connected to one fake OpenRGB server "
-    "(own controller / hidraw node), MIDI-in from one real DynamicFanOut fed with 0-12 cycling messages, one shared DeviceConfig value; per "
+    "(own controller / hidraw node), MIDI-in from one real DynamicFanOut fed with 0-12 cycling messages (Note On / Off; a third of them any other legal message: controllers, "
+    "bend, program change, pressure, all real-time bytes incl. system reset, song position, SysEx), one shared DeviceConfig value; per "
     "device a key history of 0-30 events (C17-style descriptions and layouts) that ends with a note key held in 80% of the cases, and the "
     "moment its event stream ends drawn from: before the LED loop connects (0-200 ms), during controller discovery (260-490 ms), after the "
     "first frame with the history played back to back / with 0-6 ms pauses (between frames) / followed by a 0-40 ms wait, always while MIDI-in "
